@@ -2,6 +2,17 @@ package main
 
 // vh c09 — runs the REAL obialign.FastLCSScore / FastLCSEGFScore / D1Or0 on pairs of sequences.
 //
+// case   {"kind":"tables"}  ->  {"kind":"tables","iupac":[26 bytes],"wsize":..,"dwsize":..,"empty":..,"out":..,"notavail":..,
+//                                "enc":[[score,length,out(0/1),word],..],"dec":[[word,score,length,out],..]}   (current build)
+// case   {"kind":"d1all","n":5,"lo":0,"hi":100}  ->  {"kind":"d1all","codes":[..]}: D1Or0 on every ordered pair (a, b) with a the
+//          sequences number lo..hi-1 and b every sequence over {a,c,g,t} of length <= n (enumeration: by length, then
+//          lexicographic); one code per pair = (verdict+1) + 4*(pos+1) + 64*a1 + 64*256*a2 (verdict -99 on panic -> code -1)
+// case   {"kind":"run","seqs":[...],"calls":[[i,j,m],..]}  ->  {"kind":"run","r":[[i,j,m,s,l,d],..]}
+//          the calls FastLCSScore(seqs[i], seqs[j], m, &matrix) in that order through ONE buffer (fresh for the case,
+//          as a worker of obiclean / obirefidx does), d = D1Or0 verdict of the pair
+// case   {"kind":"tag","seqs":[query, ref1, ref2, ..]}  ->  {"kind":"tag","r":[[j,maxe,s,l,d],..]}
+//          the candidate loop of obitag.FindClosests (without the 4-mer pruning): maxe starts at -1 and shrinks to the
+//          best score seen; D1Or0 when maxe is 0 or 1 (then s = l = -2), else FastLCSScore(query, ref, maxe, &matrix)
 // case   {"a": "...", "b": "...", "ms": [bounds], "dump": bool}
 // answer {"r": [[m, s,l, s',l', es,el,ee, es',el',ee'], ...], "d": [d,pos,a1,a2], "pre": [[...],[...]]...}
 //   unprimed = fresh scratch buffer (nil), primed = one scratch buffer shared by every call of the process
@@ -18,16 +29,153 @@ import (
 )
 
 type c09case struct {
-	A    string `json:"a"`
-	B    string `json:"b"`
-	Ms   []int  `json:"ms"`
-	Dump bool   `json:"dump"`
+	Kind  string   `json:"kind"`
+	Seqs  []string `json:"seqs"`
+	Calls [][]int  `json:"calls"`
+	N     int      `json:"n"`
+	Lo    int      `json:"lo"`
+	Hi    int      `json:"hi"`
+	A     string   `json:"a"`
+	B     string   `json:"b"`
+	Ms    []int    `json:"ms"`
+	Dump  bool     `json:"dump"`
 }
 
 type c09obs struct {
 	R   [][]int    `json:"r"`
 	D   []int      `json:"d"`
 	Pre [][]uint64 `json:"pre,omitempty"`
+}
+
+type c09tables struct {
+	Kind     string     `json:"kind"`
+	Iupac    []int      `json:"iupac"`
+	Wsize    int        `json:"wsize"`
+	Dwsize   int        `json:"dwsize"`
+	Empty    uint64     `json:"empty"`
+	Out      uint64     `json:"out"`
+	Notavail uint64     `json:"notavail"`
+	Enc      [][]uint64 `json:"enc"`
+	Dec      [][]uint64 `json:"dec"`
+}
+
+type c09run struct {
+	Kind string  `json:"kind"`
+	R    [][]int `json:"r"`
+}
+
+func c09dumpTables() c09tables {
+	t := c09tables{Kind: "tables"}
+	for _, b := range obialign.VerifC09Iupac() {
+		t.Iupac = append(t.Iupac, int(b))
+	}
+	t.Wsize, t.Dwsize, t.Empty, t.Out, t.Notavail = obialign.VerifC09PackConsts()
+	b2u := func(b bool) uint64 {
+		if b {
+			return 1
+		}
+		return 0
+	}
+	for _, sl := range [][2]int{{0, 0}, {0, 1}, {1, 1}, {7, 12}, {300, 417}, {29999, 30000}, {65535, 65534}} {
+		for _, o := range []bool{false, true} {
+			w := obialign.VerifC09Encode(sl[0], sl[1], o)
+			t.Enc = append(t.Enc, []uint64{uint64(sl[0]), uint64(sl[1]), b2u(o), w})
+			s, l, oo := obialign.VerifC09Decode(w - 1)
+			t.Dec = append(t.Dec, []uint64{w - 1, uint64(s), uint64(l), b2u(oo)})
+		}
+	}
+	return t
+}
+
+type c09d1all struct {
+	Kind  string `json:"kind"`
+	Codes []int  `json:"codes"`
+}
+
+func c09allSeqs(n int) []string {
+	all := []string{""}
+	prev := []string{""}
+	for k := 1; k <= n; k++ {
+		cur := make([]string, 0, len(prev)*4)
+		for _, p := range prev {
+			for _, ch := range "acgt" {
+				cur = append(cur, p+string(ch))
+			}
+		}
+		all = append(all, cur...)
+		prev = cur
+	}
+	return all
+}
+
+func c09d1All(c c09case) c09d1all {
+	o := c09d1all{Kind: "d1all"}
+	all := c09allSeqs(c.N)
+	bs := make([]*obiseq.BioSequence, len(all))
+	for i, s := range all {
+		bs[i] = obiseq.NewBioSequence("s", []byte(s), "")
+	}
+	for i := c.Lo; i < c.Hi && i < len(all); i++ {
+		for j := range all {
+			d := c09d1(bs[i], bs[j])
+			if d[0] == -99 {
+				o.Codes = append(o.Codes, -1)
+			} else {
+				o.Codes = append(o.Codes, (d[0]+1)+4*(d[1]+1)+64*d[2]+64*256*d[3])
+			}
+		}
+	}
+	return o
+}
+
+func c09runCalls(c c09case) c09run {
+	o := c09run{Kind: "run"}
+	seqs := make([]*obiseq.BioSequence, len(c.Seqs))
+	for i, s := range c.Seqs {
+		seqs[i] = obiseq.NewBioSequence("s", []byte(s), "")
+	}
+	var matrix []uint64
+	for _, call := range c.Calls {
+		i, j, m := call[0], call[1], call[2]
+		s, l := c09lcs(seqs[i], seqs[j], m, &matrix)
+		d := c09d1(seqs[i], seqs[j])
+		o.R = append(o.R, []int{i, j, m, s, l, d[0]})
+	}
+	return o
+}
+
+func c09tag(c c09case) c09run {
+	o := c09run{Kind: "tag"}
+	if len(c.Seqs) == 0 {
+		return o
+	}
+	query := obiseq.NewBioSequence("q", []byte(c.Seqs[0]), "")
+	var matrix []uint64
+	maxe := -1
+	for j := 1; j < len(c.Seqs); j++ {
+		ref := obiseq.NewBioSequence("r", []byte(c.Seqs[j]), "")
+		score := int(1e9)
+		lcs, alilength := -1, -1
+		if maxe == 0 || maxe == 1 {
+			d := c09d1(query, ref)
+			o.R = append(o.R, []int{j, maxe, -2, -2, d[0]})
+			if d[0] >= 0 {
+				score = d[0]
+				alilength = max(query.Len(), ref.Len())
+				lcs = alilength - score
+			}
+		} else {
+			lcs, alilength = c09lcs(query, ref, maxe, &matrix)
+			o.R = append(o.R, []int{j, maxe, lcs, alilength, -2})
+			if lcs >= 0 {
+				score = alilength - lcs
+			}
+		}
+		if lcs >= 0 && (maxe == -1 || score < maxe) {
+			maxe = score
+		}
+	}
+	return o
 }
 
 var c09shared []uint64
@@ -70,6 +218,16 @@ func c09copy(b []uint64) []uint64 {
 func init() {
 	register("c09", func(in *bufio.Reader, out *bufio.Writer) error {
 		return eachLine(in, out, func(c c09case) any {
+			switch c.Kind {
+			case "tables":
+				return c09dumpTables()
+			case "run":
+				return c09runCalls(c)
+			case "d1all":
+				return c09d1All(c)
+			case "tag":
+				return c09tag(c)
+			}
 			sa := obiseq.NewBioSequence("a", []byte(c.A), "")
 			sb := obiseq.NewBioSequence("b", []byte(c.B), "")
 			o := c09obs{R: make([][]int, 0, len(c.Ms))}
